@@ -365,7 +365,7 @@ def run(ctx):
     n = 0
     sh, N = ctx.shard, ctx.nshards
     restore_default()
-    nr = 48 if ctx.tier == 'quick' else 800
+    nr = 48 if ctx.tier == 'quick' else 15000
     for ci, cs in enumerate(CHARSETS):
         for j in range(nr):
             if (ci * nr + j) % N != sh:
@@ -385,7 +385,7 @@ def run(ctx):
         ctx.nontrivial(('reassign', a, b))
         n += 1
     # classic faults
-    nf = 2 if ctx.tier == 'quick' else 8
+    nf = 2 if ctx.tier == 'quick' else 60
     for ci, cs in enumerate(CHARSETS):
         for j in range(nf):
             if (ci * nf + j) % N != sh:
@@ -397,7 +397,7 @@ def run(ctx):
     # failpoints at every line
     codes = lines.code_objects(MODULES)
     exclude = lines.codes_of(mido.midifiles.meta.meta_charset)
-    ns = 2 if ctx.tier == 'quick' else 6
+    ns = 2 if ctx.tier == 'quick' else 150
     with lines.Failpoints(codes, exclude) as fp:
         for ci, cs in enumerate(CHARSETS):
             if cs == 'latin1':
